@@ -33,7 +33,7 @@ def obligations(tier):
         obs.append(ch(f, "harness.C02_writers", timeout=T * 2, functions=D, bounds=B24 + "; bs4 replaced by contract stub"))
     S = ("SAMIWriter._recreate_p_tag", "_recreate_sync", "_recreate_blank_tag")
     obs.append(ch("dfxp_cue_structure", "harness.C02_writers", timeout=T * 2, functions=("DFXPWriter.write", "SinglePositioningDFXPWriter.write", "LegacyDFXPWriter.write", "merge_concurrent_captions"), exhaustive=True,
-                  bounds="4 captions with each one of two timespans (16 arrangements) x 3 DFXP writers: one p per caption in order; the legacy and single-position writers merge only consecutive captions with identical times"))
+                  bounds="4 captions with each one of two timespans (16 arrangements) x 3 DFXP writers x written for the first time or after a single-position write of the same set: one p per caption in order; the legacy and single-position writers merge only consecutive captions with identical times"))
     obs.append(ch("sami_sync_2", "harness.C02_sami", timeout=T, functions=S, bounds="2 cues of one language, all ordered instants < 24 h"))
     obs.append(ch("sami_sync_3", "harness.C02_sami", timeout=T, functions=S, bounds="3 cues of one language, all ordered instants < 24 h"))
     obs.append(ch("sami_sync_float", "harness.C02_sami", timeout=T, functions=S, exhaustive=True,
